@@ -23,7 +23,10 @@ impl PanicInfo {
     pub fn signature(&self) -> String {
         let mut stem = String::new();
         let mut last_digit = false;
-        for c in self.message.chars().take(80) {
+        for c in self.message.chars() {
+            if stem.chars().count() >= 40 {
+                break;
+            }
             if c.is_ascii_digit() {
                 if !last_digit {
                     stem.push('#');
